@@ -135,6 +135,7 @@ func allPropsUnsorted() []*propInfo {
 				"C13.1 (shared) a time seek re-opens only unexpired deliveries; C15.2 (shared) the schema is created with its foreign keys. NOT decided: ties of published_at inside one batch, interplay with seek-to-snapshot, the history-level order itself.",
 			Assumptions: []string{k1Assumption},
 			Rules: []ruleFn{
+				{ID: "C02.4", Doc: "(shared, ordering-key instances: each message of a batch is stored with its own ordering key) [dep] content provenance", Run: ruleC02_4, Only: `OrderKey|OrderingKey|order_key`},
 				{ID: "C17.2", Doc: "(shared, ordering instances: only an update naming enable_message_ordering changes ordered delivery) [atoms] update-mask locality", Run: ruleC17_2, Only: `enable_message_ordering|ordered_delivery`},
 				{ID: "C13.1", Doc: "(shared: a backward seek re-opens only unexpired deliveries: an expired predecessor would be revived behind its successor) [atoms] seek-to-time is a partition", Run: ruleC13_1},
 				{ID: "C15.2", Doc: "[who] (option) the schema is created with its foreign keys (no WithForeignKeys(false))", Run: ruleC15_2fkOption},
